@@ -4,8 +4,8 @@ From Coq Require Import List Arith Bool ZArith String Lia PeanoNat.
 Import ListNotations.
 From BT.Base Require Import Bits BitsProofs BytesProofs.
 From BT.Layout Require Import Model BuildProofs RoundTrip RecordProofs SizeProofs FillProofs FillBuild PosProofs.
-From BT.Tracer Require Import Model Decode RecordDecode Lemmas Spec BoundsProofs FlagProofs Chain Holes History
-  HistoryOpen HistoryClose HistoryRecord ErrMono.
+From BT.Tracer Require Import Model Decode RecordDecode Lemmas Spec BoundsProofs FlagProofs ProtocolProofs
+  OutcomeProofs TimeProofs Chain Holes History HistoryOpen HistoryClose HistoryRecord ErrMono.
 
 Section S.
   Variable d : dstm.
@@ -223,5 +223,158 @@ Section S.
         unfold close_hand. rewrite <- S7. cbn [andb].
         right. exists K, cur. split; [|exact F]. eapply HI_core; [|exact H].
         unfold History.same_core. up. repeat split; auto.
+  Qed.
+
+  Lemma close_section_J R w : J R w -> c_in_ts (w_c w) = true ->
+    (w_err w = false -> c_open (w_c w) = true -> c_at (w_c w) <= c_psize (w_c w)) ->
+    let w' := with_use_ts (close_cb d) w in
+    J R w' /\ c_in_ts (w_c w') = true.
+  Proof.
+    intros HJ Hf Hb. cbv zeta. unfold with_use_ts.
+    set (w0 := set_c w (set_use_ts (w_c w) true)).
+    assert (Hf0 : c_in_ts (w_c w0) = true) by (unfold w0; up; exact Hf).
+    pose proof (proj1 (close_cb_blk d true w0 Hf0)) as Hf1.
+    split; [|up; exact Hf1].
+    eapply J_core; [apply sc_use_ts|reflexivity|].
+    apply close_cb_J.
+    - eapply J_core; [apply sc_use_ts|reflexivity|exact HJ].
+    - unfold w0. up. exact Hb.
+  Qed.
+
+  Lemma full_J R w : J R w -> c_in_ts (w_c w) = true ->
+    J R (snd (full_cb w)) /\ c_in_ts (w_c (snd (full_cb w))) = true.
+  Proof.
+    intros HJ Hf. split.
+    - eapply J_core; [apply sc_full|apply err_full|exact HJ].
+    - rewrite full_cb_eq. prj. togs. exact Hf.
+  Qed.
+
+  (* ---------------------------------------------------------------- space reservation *)
+  Lemma gt_diff32_le n a b : gt_diff32 n a b = true -> b <= a.
+  Proof. unfold gt_diff32. destruct (Nat.leb_spec b a); [auto|discriminate]. Qed.
+
+  Lemma reserve2_J R n w : J R w -> c_in_ts (w_c w) = true ->
+    (w_err w = false -> c_open (w_c w) = true) ->
+    let r := reserve2 d n w in
+    J R (snd r) /\ c_in_ts (w_c (snd r)) = true /\
+    (fst r = true -> w_err (snd r) = false -> c_open (w_c (snd r)) = true).
+  Proof.
+    intros HJ Hf Ho. cbv zeta. unfold reserve2.
+    destruct (gt_diff32 n (c_psize (w_c w)) (c_at (w_c w))) eqn:G.
+    - destruct (close_section_J R w HJ Hf) as [J1 F1].
+      { intros _ _. eapply gt_diff32_le; eauto. }
+      set (w1 := with_use_ts (close_cb d) w) in *.
+      destruct (full_J R w1 J1 F1) as [J2 F2].
+      destruct (fst (full_cb w1)).
+      + split; [apply J_no_space; exact J2|]. split; [exact F2|]. discriminate.
+      + destruct (open_section_J R _ J2 F2) as (J3 & F3 & O3).
+        set (w3 := with_use_ts (open_cb d) (snd (full_cb w1))) in *.
+        destruct (gt_diff32 n (c_psize (w_c w3)) (c_at (w_c w3))); cbn [fst snd].
+        * split; [left; reflexivity|]. split; [exact F3|]. intros _ X. discriminate.
+        * split; [exact J3|]. split; [exact F3|]. intros _ X. apply O3. exact X.
+    - cbn [fst snd]. split; [exact HJ|]. split; [exact Hf|]. intros _ X. apply Ho. exact X.
+  Qed.
+
+  Lemma reserve_J R n w : J R w -> c_in_ts (w_c w) = true ->
+    let r := reserve d w n in
+    J R (snd r) /\ c_in_ts (w_c (snd r)) = true /\
+    (fst r = true -> w_err (snd r) = false -> c_open (w_c (snd r)) = true).
+  Proof.
+    intros HJ Hf. cbv zeta. rewrite reserve_eq. unfold reserve'.
+    destruct (gt_diff32 n (c_psize (w_c w)) (c_off_content (w_c w))).
+    - split; [apply J_no_space; exact HJ|]. split; [exact Hf|]. discriminate.
+    - destruct (Nat.eqb_spec (c_at (w_c w)) (c_psize (w_c w))) as [Eq|Ne].
+      + destruct (full_J R w HJ Hf) as [J1 F1].
+        destruct (fst (full_cb w)).
+        * split; [apply J_no_space; exact J1|]. split; [exact F1|]. discriminate.
+        * destruct (open_section_J R _ J1 F1) as (J2 & F2 & O2).
+          apply reserve2_J; auto.
+      + apply reserve2_J; auto.
+        intros E0. destruct HJ as [X|(K & cur & H & _)]; [congruence|].
+        destruct H as (_ & _ & _ & _ & _ & _ & _ & _ & _ & _ & H11).
+        destruct (c_open (w_c w)); [reflexivity|]. destruct H11 as [_ X]. contradiction.
+  Qed.
+
+  (* ---------------------------------------------------------------- one tracing call *)
+  (* what a tracing call adds to the records a reader finds, and to the discards *)
+  Inductive outcome (w w' : world) (R : list rcd) (r : rcd) : Prop :=
+  | o_off : J R w' -> nd w w' 0 -> outcome w w' R r        (* tracing disabled: nothing *)
+  | o_rec : J (R ++ [r]) w' -> nd w w' 0 -> outcome w w' R r   (* recorded exactly once, after all others *)
+  | o_disc : J R w' -> nd w w' 1 -> outcome w w' R r.      (* counted as discarded *)
+
+  Lemma sc_mark w : same_core w (trace_mark d w).
+  Proof. unfold trace_mark. destruct (_ && _); [apply sc_logev; reflexivity|apply same_core_refl]. Qed.
+
+  Theorem trace_J R w e args cv sv pv :
+    J R w -> In e (d_erts d) -> args_ok d e args cv sv pv ->
+    w_err (trace_fn d e args w) = false ->
+    let we := trace_entry d w in
+    let w' := trace_fn d e args w in
+    if c_enabled (w_c we)
+    then (J (R ++ [rec_spec d e (c_last_ts (w_c we)) cv sv pv]) w' /\ nd w w' 0) \/ (J R w' /\ nd w w' 1)
+    else J R w' /\ nd w w' 0.
+  Proof.
+    intros HJ Hin Hargs He. cbv zeta. rewrite trace_fn_eq in *.
+    pose proof (nd_trace_entry d w) as N0.
+    assert (Je : J R (trace_entry d w)).
+    { eapply J_core; [apply sc_entry| |exact HJ].
+      unfold trace_entry. destruct (d_has_clock d); [|reflexivity]. rewrite err_set_c, err_clock. reflexivity. }
+    set (we := trace_entry d w) in *.
+    destruct (c_enabled (w_c we)); cbn [negb] in *; [|split; [exact Je|exact N0]].
+    unfold trace_body in *.
+    set (w0 := set_c we (set_in_ts (w_c we) true)) in *.
+    assert (J0 : J R w0) by (eapply J_core; [apply sc_in_ts|reflexivity|exact Je]).
+    assert (F0 : c_in_ts (w_c w0) = true) by reflexivity.
+    assert (N0' : nd w w0 0) by (eapply nd_eq_log; [|exact N0]; unfold w0; up; reflexivity).
+    destruct (size_parts (rec_parts d e 0%Z args) (c_at (w_c we))) as [ae|]; [|discriminate].
+    cbv zeta in *.
+    set (n := ae - c_at (w_c we)) in *.
+    destruct (reserve_J R n w0 J0 F0) as (J1 & F1 & O1).
+    pose proof (reserve_nd d w0 n) as N1.
+    pose proof (reserve_last d w0 n) as T1.
+    destruct (fst (reserve d w0 n)) eqn:Ok; cbn [negb] in *.
+    - (* space reserved *)
+      left.
+      set (w1 := snd (reserve d w0 n)) in *.
+      destruct (w_err w1) eqn:E1; [congruence|].
+      specialize (O1 eq_refl eq_refl).
+      unfold trace_ser in *. cbv zeta in *.
+      set (w1' := trace_mark d w1) in *.
+      assert (Tm : c_last_ts (w_c w1') = c_last_ts (w_c we)).
+      { unfold w1', trace_mark. destruct (_ && _); up; rewrite T1; reflexivity. }
+      rewrite Tm in *.
+      set (ts := c_last_ts (w_c we)) in *.
+      set (w2 := ser_parts d w1' (rec_parts d e ts args)) in *.
+      destruct (w_err w2) eqn:E2; [congruence|].
+      assert (J1' : J R w1').
+      { eapply J_core; [apply sc_mark| |exact J1]. unfold w1', trace_mark. destruct (_ && _); reflexivity. }
+      assert (O1' : c_open (w_c w1') = true).
+      { unfold w1', trace_mark. destruct (_ && _); up; exact O1. }
+      assert (F1' : c_in_ts (w_c w1') = true).
+      { unfold w1', trace_mark. destruct (_ && _); up; exact F1. }
+      assert (E1' : w_err w1' = false).
+      { unfold w1', trace_mark. destruct (_ && _); up; exact E1. }
+      destruct J1' as [X|(K & cur & H & F)]; [congruence|].
+      destruct (record_HI d user cs_size WF w1' K cur e ts args cv sv pv Hin Hargs H O1' E2)
+        as (H2 & O2 & F2 & _ & P2 & _ & A2).
+      fold w2 in H2, O2, F2, P2, A2.
+      assert (J2 : J (R ++ [rec_spec d e ts cv sv pv]) w2).
+      { right. exists K, (cur ++ [rec_spec d e ts cv sv pv]). split; [exact H2|]. rewrite app_assoc, F. reflexivity. }
+      assert (N2 : nd w w2 0).
+      { apply (nd_trans w w1' w2 0 0); [|apply nd_ser_parts].
+        apply (nd_trans w w1 w1' 0 0); [apply (nd_trans _ _ _ 0 0 N0' N1)|].
+        unfold w1', trace_mark. destruct (_ && _); [apply nd_logev; discriminate|apply nd_refl]. }
+      unfold trace_commit in *.
+      destruct (Nat.eqb_spec (c_at (w_c w2)) (c_psize (w_c w2))) as [Eq|Ne].
+      + split.
+        * eapply J_core; [apply sc_in_ts|reflexivity|]. apply close_cb_J; [exact J2|]. intros _ _. lia.
+        * eapply nd_eq_log; [|apply (nd_trans _ _ _ 0 0 N2), nd_close_cb]. up. reflexivity.
+      + split.
+        * eapply J_core; [apply sc_in_ts|reflexivity|exact J2].
+        * eapply nd_eq_log; [|exact N2]. up. reflexivity.
+    - (* no space: discarded *)
+      right. split.
+      + eapply J_core; [apply sc_in_ts|reflexivity|exact J1].
+      + eapply nd_eq_log; [|apply (nd_trans _ _ _ 0 1 N0' N1)]. up. reflexivity.
   Qed.
 End S.
